@@ -38,7 +38,7 @@ ASSUMPTIONS = [
     "transferred blocks do not spell the parser's own line formats: the keyword 'Snapshot' (parse_log_file splits a log there, by design) or a complete ['0x..', ...] data line",
 ]
 BUDGET = {
-    "quick": {"workers": 16, "examples": 3200},
+    "quick": {"workers": 16, "examples": 6400},
     "thorough": {"workers": 16, "examples": 96000},
 }
 
